@@ -7,7 +7,6 @@ from . import c01, c02, c03, c05, c06, c08, c17
 
 PROP, BIN, RUNMOD, RUNFN = "C04", "c04", "RunC04", "run_C04"
 MODES = [True, False]
-LEVEL = "other"   # until the theorems of this property are merged
 
 
 def gen(rng, tier):
